@@ -12,7 +12,7 @@ RULE = ("op `enc <byte> <operands>`: definitions::make, lookup and read_operands
 ASSUMPTIONS = ["operands are usize values; the harness passes them to make() unchanged",
                "limit programs (op `eval`): whole programs whose operands sit at and beyond the 8/16-bit boundaries (jump targets around 32768 and beyond 65535, local / argument / "
                "captured-variable counts around 255, literal sizes around 255/256/65535, constant indices beyond 255) run through the real scanner, parser, compiler and VM; the expected "
-               "result is computed by the generator; beyond a boundary the outcome must be the correct result or a compile error, never a wrong run (constants/globals beyond 65535 in the thorough tier)"]
+               "result is computed by the generator; beyond a boundary the outcome must be the correct result or a compile error, never a wrong run"]
 EXHAUSTIVE = False
 HARNESS_TIMEOUT = 900
 
@@ -94,8 +94,10 @@ def limit_programs(thorough):
     for n in (100, 127, 128, 129, 200, 256, 1000, 1500):
         src = f"let obs = [];\nlet m = map {{{', '.join(f'{j}: {j + 1}' for j in range(n))}}};\npush(obs, len(m));\npush(obs, m[{n - 1}]);\nm[0]\n"
         exact(f"map-literal-{n}-pairs", src, "i:1", [n, n])
-    if thorough:
-        # operands beyond 16 bits: constants, globals, literal sizes
+    if True:
+        # operands beyond 16 bits: constants, globals, literal sizes (affordable since the harness runs with
+        # glibc's mmap threshold raised: the compiler clones its instruction buffer on every emit)
+        ok_or_rejected("closure-constant-index-65536", "let obs = [];\nfn ff() { 4 }\n" + "".join(f"{j};\n" for j in range(65536)) + "fn gg() { 5 }\npush(obs, ff());\ngg()\n", "i:5", [4])
         ok_or_rejected("array-literal-65536", f"let obs = [];\nlet a = [{', '.join('1' for _ in range(65536))}];\nlen(a)\n", "i:65536", [])
         ok_or_rejected("map-literal-32768-pairs", f"let obs = [];\nlet m = map {{{', '.join(f'{j}: 1' for j in range(32768))}}};\nlen(m)\n", "i:32768", [])
         exact("constants-65000", "let obs = [];\n" + "".join(f"{j};\n" for j in range(65000)) + "push(obs, 7);\n65000\n", "i:65000", [7])
@@ -132,8 +134,11 @@ def cases(ctx):
     for v in (vals16 if ctx.thorough() else vals16[::7]):
         for w in (0, 255, 256):
             out.append(Case(f"enc 34 {v} {w}", ("closure",)))
-    for name, src, verdict in limit_programs(ctx.thorough()):
-        out.append(Case("eval " + hx(src), ("limit-program",), extra={"expect": verdict, "name": "limit " + name}))
+    # spread the limit programs over the shards (the big ones take seconds each)
+    lim = limit_programs(ctx.thorough())
+    step = max(1, len(out) // (len(lim) + 1))
+    for k, (name, src, verdict) in enumerate(lim):
+        out.insert(min(len(out), (k + 1) * step + k), Case("eval " + hx(src), ("limit-program",), extra={"expect": verdict, "name": "limit " + name}))
     # whole programs of the core fragment around the 16-bit jump boundary: the functional compiler with its overflow
     # check (Core.compileChecked, theorem compile_lossless_or_rejected) must be byte-exact with the real compiler where
     # it accepts, and reject exactly where the real compiler rejects
